@@ -623,3 +623,6 @@ def run(facts, rep, tier):
              "discipline (insert on entry, remove on exit): a persistent visited set lets the first branch explored consume shared ancestors, so which paths exist depends on the hash seed.")
     from . import c18
     c18.rule_r1(facts, rep, "C16-R5")
+    rep.rule("C16-R7", "= C04-R6: notes inserted one by one end up with the index a bulk load builds, whatever the order: per-note indexes are merged by per-key union.")
+    from . import c04 as _c04
+    _c04.rule_r6(facts, rep, "C16-R7")
